@@ -176,17 +176,6 @@ func DefaultIntrinsics() map[string]Intrinsic {
 		}
 		return term.False
 	}
-	// skipmap: linearizable map model (spike: only what nodeState needs)
-	m["github.com/zhangyunhao116/skipmap.NewUint64"] = func(r *run, fr *frame, args []Value) Value {
-		p := new(Value)
-		*p = &Opaque{Kind: "skipmap", Data: &Map{}}
-		return p
-	}
-	m["(*github.com/zhangyunhao116/skipmap.Uint64Map).Store"] = func(r *run, fr *frame, args []Value) Value {
-		mm := (*(args[0].(*Value))).(*Opaque).Data.(*Map)
-		r.mapStore(mm, args[1], args[2])
-		return nil
-	}
 	m["github.com/libp2p/go-buffer-pool.Get"] = func(r *run, fr *frame, args []Value) Value {
 		n := r.concInt(args[0], "pool.Get size")
 		if n < 0 || n > 1<<16 {
@@ -204,6 +193,7 @@ func DefaultIntrinsics() map[string]Intrinsic {
 	delete(m, "internal/stringslite.HasPrefix")
 	threadIntrinsics(m)
 	rtIntrinsics(m)
+	containerIntrinsics(m)
 	stdIntrinsics(m)
 	return m
 }
